@@ -145,14 +145,15 @@ __CPROVER_ensures (__CPROVER_return_value == htab->number_of_elements - htab->nu
 ;
 
 /* ---- harnesses ---- */
-void h_hpn (void) { unsigned long n; higher_prime_number (n); VACUITY_CANARY (); }
-void h_create (void) { YaepAllocator *a; size_t n; unsigned (*hf) (hash_table_entry_t); int (*ef) (hash_table_entry_t, hash_table_entry_t);
+#define GH() do { HAVOC (gh_k); HAVOC (gh_eq_a); HAVOC (gh_eq_ret); HAVOC (gh_hash_ret); HAVOC (gh_old_n); HAVOC (gh_reserve); HAVOC (gh_n0); HAVOC (gh_d0); HAVOC (gh_slot_before); HAVOC (gh_present); } while (0)
+void h_hpn (void) { GH (); unsigned long n; higher_prime_number (n); VACUITY_CANARY (); }
+void h_create (void) { GH (); YaepAllocator *a; size_t n; unsigned (*hf) (hash_table_entry_t); int (*ef) (hash_table_entry_t, hash_table_entry_t);
   create_hash_table (a, n, hf, ef); VACUITY_CANARY (); }
-void h_empty (void) { hash_table_t h; empty_hash_table (h); VACUITY_CANARY (); }
-void h_delete (void) { hash_table_t h; delete_hash_table (h); VACUITY_CANARY (); }
-void h_expand (void) { hash_table_t h; expand_hash_table (h); VACUITY_CANARY (); }
-void h_find (void) { hash_table_t h; hash_table_entry_t e; int r; hash_table_entry_t *p = find_hash_table_entry (h, e, r);
+void h_empty (void) { GH (); hash_table_t h; empty_hash_table (h); VACUITY_CANARY (); }
+void h_delete (void) { GH (); hash_table_t h; delete_hash_table (h); VACUITY_CANARY (); }
+void h_expand (void) { GH (); hash_table_t h; expand_hash_table (h); VACUITY_CANARY (); }
+void h_find (void) { GH (); hash_table_t h; hash_table_entry_t e; int r; hash_table_entry_t *p = find_hash_table_entry (h, e, r);
   if (*p == EMPTY_ENTRY) VACUITY_CANARY_N ("empty result"); else VACUITY_CANARY_N ("hit"); }
-void h_remove (void) { hash_table_t h; hash_table_entry_t e; remove_element_from_hash_table_entry (h, e); VACUITY_CANARY (); }
-void h_size (void) { hash_table_t h; hash_table_size (h); VACUITY_CANARY (); }
-void h_elements (void) { hash_table_t h; hash_table_elements_number (h); VACUITY_CANARY (); }
+void h_remove (void) { GH (); hash_table_t h; hash_table_entry_t e; remove_element_from_hash_table_entry (h, e); VACUITY_CANARY (); }
+void h_size (void) { GH (); hash_table_t h; hash_table_size (h); VACUITY_CANARY (); }
+void h_elements (void) { GH (); hash_table_t h; hash_table_elements_number (h); VACUITY_CANARY (); }
